@@ -661,6 +661,74 @@ def explore_cleanup_exclusion(ctx):
                     pass
 
 
+def explore_cleanup_once(ctx):
+    """Task contract: every registered clean-up action runs exactly once, after the final step --- also when one of them (any position,
+    either end of the stack) fails with a database error and the real Worker retries the clean-up"""
+    import peewee as pw
+    from alpenhorn.scheduler import FairMultiFIFOQueue, pool
+    from alpenhorn.scheduler.task import Task
+
+    for gen in (False, True):
+        for nact in (2, 3, 4):
+            for failing in range(nact):
+                for first in (False, True):
+                    queue = FairMultiFIFOQueue()
+                    events = []
+
+                    def mk(name, fail):
+                        def act():
+                            events.append(("cleanup", name))
+                            if fail:
+                                raise pw.OperationalError("injected by the harness")
+                        return act
+
+                    def body(task, _gen=gen):
+                        for j in range(nact):
+                            task.on_cleanup(mk(j, j == failing), first=first)
+                        events.append(("step", 1))
+                        if _gen:
+                            yield
+                            events.append(("step", 2))
+
+                    def plain(task):
+                        for j in range(nact):
+                            task.on_cleanup(mk(j, j == failing), first=first)
+                        events.append(("step", 1))
+
+                    Task(body if gen else plain, queue, "n:node", name="X")
+                    pool.global_abort.clear()
+                    for _ in range(3):
+                        if queue.qsize == 0:
+                            break
+                        wk = pool.Worker(queue, 0)
+                        got = {"n": 0}
+
+                        class QP:
+                            @staticmethod
+                            def get(timeout=None, _got=got, _wk=wk):
+                                if _got["n"] >= 1:
+                                    _wk._worker_stop.set()
+                                    return None
+                                _got["n"] += 1
+                                return queue.get(timeout=0.001)
+
+                            task_done = staticmethod(queue.task_done)
+
+                        wk._queue = QP
+                        wk.run()
+                    aborted = pool.global_abort.is_set()
+                    pool.global_abort.clear()
+                    counts = {j: sum(1 for e in events if e == ("cleanup", j)) for j in range(nact)}
+                    last_step = max(i for i, e in enumerate(events) if e[0] == "step")
+                    early = [e for e in events[:last_step] if e[0] == "cleanup"]
+                    ctx.count("cleanup-once")
+                    ctx.distinct_add(("cleanup-once", gen, nact, failing, first))
+                    rp = {"family": "cleanup-once", "generator": gen, "actions": nact, "failing": failing, "registered_first": first, "events": [list(e) for e in events]}
+                    if any(c != 1 for c in counts.values()) or early or aborted:
+                        ctx.fail("C12:cleanup", f"task with {nact} clean-up actions (action {failing} fails with a database error; generator={gen}): run counts {counts}, "
+                                 f"clean-ups before the final step {early}, abort={aborted}; events {events}", rp)
+
+
 def explore_drain(ctx):
     """update_loop(once=True) on a host without nodes: it returns only when nothing is queued, deferred or running; the loop's wait step is
     scripted (each wait lets one more piece of outstanding work finish), so no real time is involved"""
@@ -899,6 +967,7 @@ def explore(ctx):
     explore_consumers(ctx, 120 if ctx.quick() else 3000)
     explore_drain(ctx)
     explore_cleanup_exclusion(ctx)
+    explore_cleanup_once(ctx)
 
 
 def search(ctx):
